@@ -37,7 +37,7 @@ func (w *World) verifyFunction(fn *ssa.Function, fc *FuncContract) (res *FuncRes
 	for _, b := range fn.Blocks {
 		for _, ins := range b.Instrs {
 			switch ins.(type) {
-			case *ssa.Defer, *ssa.Go, *ssa.Select:
+			case *ssa.Go, *ssa.Select:
 				enc.unsup("%T outside the modelled subset", ins)
 			}
 		}
